@@ -32,3 +32,71 @@ contract(CT + "parse_type",
          ensures=[("depth_nonneg", "result.pointer_depth >= 0"),
                   ("no_trailing_star", "not endswith(result.name, '*')")],
          loops={1: dict(invariant=[("I.depth", "ptr_depth >= 0")])})
+
+# ---- CPPParsedTypeInfo.__str__ ---------------------------------------------------------------------------------
+contract(CT + "CPPParsedTypeInfo.__str__", props=["C10"], params=dict(self=CPPParsedTypeInfo), result=Str,
+         ensures=[("text", "result == self.name + str_repeat('*', self.pointer_depth)")])
+
+# ---- terminal --------------------------------------------------------------------------------------------------
+def terminal_text(t):
+    return ("const " if field(t, "_is_const") else "") + field(t, "_type") + str_repeat("*", field(t, "_p_depth"))
+
+
+contract(CT + "terminal.__init__#str", props=["C10"],
+         params=dict(self=TERM, t=Str, p_depth=Int, is_const=Bool, tree_type=TOpt(Str)),
+         ensures=[("type", "field(self, '_type') == t"), ("depth", "field(self, '_p_depth') == p_depth"),
+                  ("const", "field(self, '_is_const') == is_const"), ("tree", "field(self, '_tree_type') == tree_type"),
+                  ("frame", "frame('_type', self) and frame('_p_depth', self) and frame('_is_const', self) and frame('_tree_type', self)")])
+
+contract(CT + "terminal.__init__#parsed", props=["C10"],
+         params=dict(self=TERM, t=CPPParsedTypeInfo, p_depth=Int, is_const=Bool, tree_type=TOpt(Str)),
+         ensures=[("type", "field(self, '_type') == t.name"), ("depth", "field(self, '_p_depth') == t.pointer_depth"),
+                  ("const", "field(self, '_is_const') == t.is_const"), ("tree", "field(self, '_tree_type') == tree_type"),
+                  ("frame", "frame('_type', self) and frame('_p_depth', self) and frame('_is_const', self) and frame('_tree_type', self)")])
+
+contract(CT + "terminal.__str__", props=["C10"], params=dict(self=TERM), result=Str,
+         requires=["cls_is(self, '" + CT + "terminal')"],
+         ensures=[("text", "result == terminal_text(self)")])
+
+contract(CT + "terminal.tree_type", props=["C10", "C03"], params=dict(self=TERM), result=TERM,
+         ensures=[("undeclared", "implies(field(self, '_tree_type') == None, result == self)"),
+                  ("declared", "implies(field(self, '_tree_type') != None, is_new(result) and cls_is(result, '" + CT + "terminal') and "
+                               "field(result, '_type') == field(self, '_tree_type') and field(result, '_p_depth') == field(self, '_p_depth') "
+                               "and field(result, '_is_const') == field(self, '_is_const') and field(result, '_tree_type') == None)"),
+                  ("self_untouched", "field(self, '_type') == old(field(self, '_type')) and field(self, '_p_depth') == old(field(self, '_p_depth'))")])
+
+contract(CT + "terminal.get_dereferenced_type", props=["C10"], params=dict(self=TERM), result=TERM,
+         raises={"RuntimeError": "field(self, '_p_depth') == 0"},
+         ensures=[("copy", "is_new(result) and same_class(result, self) and field(result, '_type') == field(self, '_type') and "
+                           "field(result, '_is_const') == field(self, '_is_const') and field(result, '_element_type') == field(self, '_element_type')"),
+                  ("one_less", "field(result, '_p_depth') == old(field(self, '_p_depth')) - 1"),
+                  ("self_untouched", "frame('_p_depth', result) and frame('_type', result)")])
+
+# ---- member access / dereference synthesis --------------------------------------------------------------------
+recursive("deref", [("e", Str), ("n", Int)], Str, "e if n <= 0 else '(*' + deref(e, n - 1) + ')'")
+
+
+def member_access(e, depth):
+    "obj f => f.   obj *f => f->   obj **f => (*f)->   ... for any total indirection"
+    return e + "." if depth <= 0 else deref(e, depth - 1) + "->"
+
+
+CV = RefOf(CR + "cpp_value")
+contract(CR + "base_type_member_access", props=["C10"], replay="base_type_member_access",
+         params=dict(v=CV, extra_deref=Int), result=Str,
+         requires=["extra_deref >= 0", "field(v, '_cpp_type') != None", "field(field(v, '_cpp_type'), '_p_depth') >= 0"],
+         ensures=[("access", "result == member_access(field(v, '_expression'), extra_deref + field(field(v, '_cpp_type'), '_p_depth'))")],
+         loops={1: dict(invariant=[("I.deref", "result == deref(field(v, '_expression'), _i)")])})
+
+contract(CR + "dereference_var", props=["C10"],
+         params=dict(v=CV), result=CV,
+         requires=["field(v, '_cpp_type') != None"],
+         ensures=[("not_pointer", "implies(field(field(v, '_cpp_type'), '_p_depth') <= 0, result == v)"),
+                  ("pointer", "implies(field(field(v, '_cpp_type'), '_p_depth') > 0, is_new(result) and same_class(result, v) and "
+                              "field(result, '_expression') == '*' + field(v, '_expression') and field(result, '_scope') == field(v, '_scope') and "
+                              "is_new(field(result, '_cpp_type')) and "
+                              "field(field(result, '_cpp_type'), '_p_depth') == field(field(v, '_cpp_type'), '_p_depth') - 1 and "
+                              "field(field(result, '_cpp_type'), '_type') == field(field(v, '_cpp_type'), '_type') and "
+                              "field(field(result, '_cpp_type'), '_element_type') == field(field(v, '_cpp_type'), '_element_type'))"),
+                  ("original_untouched", "field(v, '_expression') == old(field(v, '_expression')) and field(v, '_cpp_type') == old(field(v, '_cpp_type')) "
+                                         "and field(field(v, '_cpp_type'), '_p_depth') == old(field(field(v, '_cpp_type'), '_p_depth'))")])
